@@ -151,6 +151,15 @@ CHECKS['C12'] = (
     '$..$ directly followed by $ is outside the quantifier and never generated (counted)',
     '3/C12')
 
+CHECKS['C05'] = (
+    'grammar-based generation with forced textual twins + one fresh parse per edit, string-splice oracle from generator spans',
+    'for generated documents in which identical nodes are frequent (small name/text pools, duplicated siblings, copies '
+    'across argument groups and bodies of one parent) targets are chosen twin-first; delete / replace_with / '
+    'parent.replace / parent.remove / insert at every content index / append are each applied to a fresh parse and the '
+    'result is compared with the splice of the source string at the span the generator recorded. ~15k edits quick. Exploration.',
+    'spans come from the generator; insertion offsets use the tree\'s own split of a body into elements; documents over 500 characters are skipped for cost (counted)',
+    '3/C05')
+
 PENDING = {}
 
 
